@@ -123,9 +123,11 @@ def World.put (w : World) (s : Nat) (t : Tree) : World := if s = 0 then { w with
 def itemsLine (t : Tree) : String :=
   ",".intercalate ((items t).map fun (k, v) => str k ++ "=" ++ str (showTree v))
 
-/-- every listed key is a member and looks up to the listed value -/
-def chk (cfg : Cfg) (t : Tree) : Bool :=
-  (items t).all fun (k, v) =>
+/-- every listed key is a member and looks up to the listed value (`none`: a lookup left the model) -/
+def chk (cfg : Cfg) (t : Tree) : Option Bool :=
+  let its := items t
+  if its.any (fun (k, _) => match getT cfg t k with | .error .oom => true | _ => false) then none
+  else some <| its.all fun (k, v) =>
     (match getT cfg t k with
      | .ok v' => showTree v' == showTree v
      | .error _ => false) &&
@@ -177,7 +179,7 @@ def runOp (cfg : Cfg) (w : World) (op : String) (s : Nat) (key : Name) (val : Li
     pure (showOpt e, w.put s t')
   | "keys" => some (",".intercalate ((keys t).map str), w)
   | "items" => some (itemsLine t, w)
-  | "chk" => some (if chk cfg t then "T" else "F", w)
+  | "chk" => some ((match chk cfg t with | some true => "T" | some false => "F" | none => "oom"), w)
   | "dir" => some (",".intercalate ((dirK (rootKvs t)).map str), w)
   | "copy" | "deepcopy" =>
     (match copyT cfg t with
